@@ -14,6 +14,9 @@ pub fn gen_ops(c: &mut Choice, nsec: usize, nseg: usize, len: usize, names: &[Ve
     // a minority of long histories over many distinct fabricated ranges (C07, C08)
     let long = max_ops >= 40 && c.chance(20);
     let n = if long { 60 + c.below(90) as usize } else { c.below(max_ops as u64 + 1) as usize };
+    // (half of the long histories: windows of any size sliding over the file, so that the ranges touched add up to
+    // many times the file's length; the others: ranges of at most 300 bytes)
+    let wide = long && c.bool();
     let mut pool = [0u64; 5];
     for p in pool.iter_mut() {
         *p = match c.below(6) {
@@ -29,7 +32,7 @@ pub fn gen_ops(c: &mut Choice, nsec: usize, nseg: usize, len: usize, names: &[Ve
         if long && k + 6 < n && c.chance(215) {
             // a history that touches many DISTINCT byte ranges before the multi-range accessors are called
             let s0 = c.below(len as u64 + 1);
-            let e0 = s0 + c.below((len as u64 - s0).min(300) + 1);
+            let e0 = s0 + c.below((len as u64 - s0).min(if wide { u64::MAX } else { 300 }) + 1);
             ops.push(Q::FabSecData(SectionHeader { sh_name: 0, sh_type: 1, sh_flags: 0, sh_addr: 0, sh_offset: s0, sh_size: e0 - s0, sh_link: 0, sh_info: 0, sh_addralign: 1, sh_entsize: 0 }));
             continue;
         }
